@@ -370,14 +370,17 @@ func TestVP_C32_Manager(t *testing.T) {
 			},
 		})
 		rep := 0
+		mu.Lock() // a late callback may still be writing
 		for _, n := range notified {
 			if n > 1 {
 				rep++
 			}
 		}
+		sn, na := staleNotes, notAgreed
+		mu.Unlock()
 		st.Count("connections-reported-disconnected-more-than-once(not judged)", rep)
-		st.Count("stale-teardowns-not-judged(the two ends had kept different connections)", notAgreed)
-		st.Count("notifications-delivered-while-a-replacement-was-registered(judged at agent level)", staleNotes)
+		st.Count("stale-teardowns-not-judged(the two ends had kept different connections)", na)
+		st.Count("notifications-delivered-while-a-replacement-was-registered(judged at agent level)", sn)
 		st.Case(strings.Join(hist, "; "), nt)
 	})
 }
